@@ -47,6 +47,15 @@ type ghostExit struct {
 //@   ensures ok == (c == "cmt")
 //@   ensures ok ==> m != nil
 
+// the letters of `info key conv -c`: p, r, d, s are the four conversions and nothing else is one (C14)
+//@ func init$infoKeyCmdConv.RunE$commandToConversion returns (k)
+//@   pure
+//@   ensures (c == 'p') == (k == op.ParallelKey)
+//@   ensures (c == 'r') == (k == op.RelativeKey)
+//@   ensures (c == 'd') == (k == op.DominantKey)
+//@   ensures (c == 's') == (k == op.SubDominantKey)
+//@   ensures (c != 'p' && c != 'r' && c != 'd' && c != 's') == (k == op.UnknownKeyConversion)
+
 // ---- flags override the first instance, and nonsense flag values are refused (C01, C07, C09) ----
 
 //@ define absent(err) err == errorx.ErrOK
